@@ -1,6 +1,7 @@
 package main
 
 import (
+	corestore "cosmossdk.io/core/store"
 	"encoding/hex"
 	"fmt"
 	"sort"
@@ -47,7 +48,7 @@ func rBool(b bool) string {
 	}
 	return "f"
 }
-func rInt(i int64) string { return "i:" + strconv.FormatInt(i, 10) }
+func rInt(i int64) string      { return "i:" + strconv.FormatInt(i, 10) }
 func rPair(a, b string) string { return "(" + a + "," + b + ")" }
 
 type kv struct{ k, v []byte }
@@ -102,3 +103,6 @@ func safely(f func() string) (res string) {
 	}()
 	return f()
 }
+
+type coreIterator = corestore.Iterator
+type coreBatch = corestore.Batch
